@@ -70,7 +70,7 @@ PROD.props = ["C01", "C02", "C07", "C09"]
 
 HCOBS = VerusUnit(
     name="hcobs",
-    uses=["use std::num::NonZeroUsize;", "use std::num::NonZeroU32;", "use std::io::Read;"],
+    uses=["use std::num::NonZeroUsize;", "use std::num::NonZeroU32;", "use std::num::{NonZeroU8, NonZeroU16, NonZeroU64};", "use std::io::Read;"],
     segments=[
         VItem(LIB, ["const RADIX"]),
         VItem(LIB, ["const STUFF_SEQUENCE"]),
